@@ -25,7 +25,11 @@ def q_alphabet(P, T, VK):
     for i in range(P):
         for j in range(i, P):
             ops.append(("sw", i, j))          # i == j: swap with itself
+    for i in range(P):
+        ops.append(("au", i, T - 1))          # adopt a base-type unique_ptr through the re-exported operator=
     ops += [("vg",), ("vc",), ("vo",)]
+    for k in range(VK):
+        ops.append(("ve", k))
     for i in range(P):
         for k in range(VK):
             ops.append(("vt", i, k))
@@ -45,7 +49,7 @@ def q_applicable(st, op):
         return op[1] < len(live) and op[2] < len(live) and (not live[op[1]]) and live[op[2]]
     if k in ("ma", "sw"):
         return op[1] < len(live) and op[2] < len(live) and live[op[1]] and live[op[2]]
-    if k in ("rs", "dr", "vp", "an"):
+    if k in ("rs", "dr", "vp", "an", "au"):
         return op[1] < len(live) and live[op[1]]
     if k == "dc":
         return op[1] < len(live) and not live[op[1]]
@@ -53,7 +57,7 @@ def q_applicable(st, op):
         return True
     if k == "vo":
         return vl > 0
-    if k == "vn":
+    if k in ("vn", "ve"):
         return op[1] < vl
     if k == "vt":
         return op[1] < len(live) and live[op[1]] and op[2] < vl
@@ -74,7 +78,7 @@ def q_shape_step(st, op):
         vl += 1
     elif k == "vc":
         vl = 0
-    elif k == "vo":
+    elif k in ("vo", "ve"):
         vl -= 1
     return (tuple(live), vl)
 
@@ -168,7 +172,8 @@ class C18(Check):
     rule = ("quaint_ptr: every applicable operation sequence of depth 4 on a pool of 2 pointers and of depth 3 on a pool of 3 (thorough: "
             "also depth 4 on a pool of 3 and depth 4 on a pool of 2 with 3 types) "
             "over {make<T>, default-construct, move-construct, move-assign (incl. self), reset, p = nullptr (also on a vector "
-            "element), std::swap (incl. with itself), destroy, push_back(move), reserve, pop_back, clear, move out of vector} + one std::vector<quaint_ptr>, then random sequences of length 12-20 (biased to "
+            "element), std::swap (incl. with itself), assignment of a base-type unique_ptr through the re-exported operator=, destroy, "
+            "push_back(move), reserve, pop_back, erase in the middle, clear, move out of vector} + one std::vector<quaint_ptr>, then random sequences of length 12-20 (biased to "
             "applicable operations) and fully random ones (inapplicable operations must be skipped identically); optional: every "
             "sequence of depth 3 over {assign value, construct from value, copy-assign (incl. self), copy-construct, assign empty, "
             "default-construct, read} on 2 optionals of a counting type, every sequence of depth 2 over the same operations with the source offered as "
